@@ -816,6 +816,14 @@ func runC09(r *Run) {
 		{Name: "steps-vary", N: r.Q(500, 20000), Do: func(c *Case) { c09StepsCase(c, "steps-vary") }},
 	}
 	fams = append(fams, c09ExprFamilies(r)...)
+	fams = append(fams, c09SibFamilies(r)...)
+	localRoot, localProblem := c09LocalSetup()
+	if localProblem != "" {
+		r.Inconclusive(localProblem)
+	} else {
+		defer os.RemoveAll(localRoot)
+		fams = append(fams, &Family{Name: "local-specs", N: r.Q(400, 8000), Do: func(c *Case) { c09LocalCase(c, "local-specs", localRoot) }})
+	}
 	fams = append(fams, &Family{Name: "global-table", N: r.Q(8, 40), Serial: true, Do: func(c *Case) { c09GlobalCase(c, "global-table") }})
 	r.RunFamilies(fams)
 	if r.ReplayOf != nil {
@@ -860,6 +868,27 @@ func runC09(r *Run) {
 			if !r.SetHas("adjacent_random", k) {
 				r.Inconclusive("random compositions never put a job with state directly before an observing job without it: " + k)
 			}
+		}
+	}
+	if only == "" || only == "sibling-keys" {
+		if n := len(c09SibGroups()); r.SetLen("sibling_groups") < n {
+			r.Inconclusive("not every sibling-key mapping was exercised")
+		}
+		if r.Counter("sibling_targets_with_diagnostics") < 40 {
+			r.Inconclusive("too few observed keys with diagnostics of their own")
+		}
+	}
+	if localProblem == "" && (only == "" || only == "local-specs") {
+		if r.SetLen("local_specs") < len(c09LocalActionSpecs)+len(c09LocalWorkflowSpecs) {
+			r.Inconclusive("not every spelling of a local action / workflow spec was used")
+		}
+		for _, k := range []string{"case", "same-name-other-dir", "same-dir-other-spelling"} {
+			if r.Counter("local_runs_with_"+k+"_pairs") < int64(r.Q(40, 800)) {
+				r.Inconclusive("too few runs that use two specs of the class " + k + " together")
+			}
+		}
+		if r.Counter("local_cases_with_diagnostics") < int64(r.Q(200, 4000)) {
+			r.Inconclusive("too few local-spec cases with diagnostics")
 		}
 	}
 	if only == "" || only == "expr-pairs" {
